@@ -328,9 +328,13 @@ package gnet
 //@   ensures c.loop == el && c.fd == old(c.fd) && elwf(el)
 //@   ensures old(c.opened && reg(el.connections, c.fd) != nil) ==> !c.opened && c.phase == 2 && nclose[c] == 1 && owner[c.fd] == nil && reg(el.connections, c.fd) != c && CZ(c)
 //@   ensures !old(c.opened && reg(el.connections, c.fd) != nil) ==> rerr == nil
+//@   ensures old(c.opened && reg(el.connections, c.fd) != nil) ==> (cerr[c] <==> err != nil)
+//@   ensures old(shutreq) ==> shutreq
+//@   ensures rerr == errorx.ErrEngineShutdown ==> shutreq
 //@   loop 1:
 //@     invariant el == el$0 && c == c$0 && c.loop == el && c.fd == old(c.fd) && elwf(el) && c.opened && c.phase == 1 && nclose[c] == 1 &&
-//@          owner[c.fd] != nil && reg(el.connections, c.fd) == nil && iwf(c) && elastic.bwf(c.outboundBuffer) && addrok(c) && ringsep(c) && !c.isDatagram
+//@          owner[c.fd] != nil && reg(el.connections, c.fd) == nil && iwf(c) && elastic.bwf(c.outboundBuffer) && addrok(c) && ringsep(c) && !c.isDatagram &&
+//@          (cerr[c] <==> err$0 != nil) && (old(shutreq) || action == Shutdown ==> shutreq)
 //
 //@ func (el *eventloop) handleAction(c *conn, action Action) (err error)
 //@   requires elwf(el) && c != nil && c.loop == el
@@ -341,6 +345,9 @@ package gnet
 //@   ensures action == Close && old(c.opened && reg(el.connections, c.fd) != nil) ==> !c.opened && c.phase == 2 && nclose[c] == 1 && owner[c.fd] == nil && reg(el.connections, c.fd) != c && CZ(c)
 //@   ensures action != Close && action != Shutdown ==> err == nil
 //@   ensures action != Close && c.opened ==> (old(CI(c)) ==> CI(c))
+//@   ensures old(shutreq) ==> shutreq
+//@   ensures err == errorx.ErrEngineShutdown ==> action == Shutdown || shutreq
+//@   ensures action == Close && old(c.opened && reg(el.connections, c.fd) != nil) ==> !cerr[c]
 //
 // wake: OnTraffic for an open, registered connection; nothing for a stale one.
 //@ func (el *eventloop) wake(c *conn) (err error)
@@ -365,8 +372,12 @@ package gnet
 //@   ensures !c.opened ==> CZ(c)
 //@   ensures !old(c.opened) ==> err == nil
 //@   ensures old(c.opened) && !c.opened ==> c.phase == 2 && nclose[c] == 1 && owner[c.fd] == nil && reg(el.connections, c.fd) != c
+//@   ensures old(c.opened) && hardfail[c.fd] && !old(hardfail[c.fd]) ==> !c.opened && nclose[c] == 1 && cerr[c]
+//@   ensures old(shutreq) ==> shutreq
+//@   ensures err == errorx.ErrEngineShutdown ==> shutreq
 //@   loop 1:
-//@     invariant el == el$0 && c == c$0 && c.loop == el && c.fd == old(c.fd) && elwf(el) && c.opened && CI(c) && ocnt(c) > 0 && sent >= 0 &&
+//@     invariant (hardfail[c.fd] <==> old(hardfail[c.fd])) && (old(shutreq) ==> shutreq) &&
+//@          el == el$0 && c == c$0 && c.loop == el && c.fd == old(c.fd) && elwf(el) && c.opened && CI(c) && ocnt(c) > 0 && sent >= 0 &&
 //@          acc(c) == old(acc(c)) && c.cons == old(c.cons) && spos[c.fd] >= old(spos[c.fd]) && isET == isET(el) && chunk == el.engine.opts.EdgeTriggeredIOChunk &&
 //@          len(c.buffer) == old(len(c.buffer)) && c.unflushed == old(c.unflushed) &&
 //@          (forall i :: 0 <= i && i < acc(c) ==> aat(c, i) == old(aat(c, i)))
@@ -386,13 +397,16 @@ package gnet
 //@   ensures !c.opened ==> CZ(c)
 //@   ensures old(c.opened) && !c.opened ==> err != nil && c.phase == 2 && nclose[c] == 1 && owner[c.fd] == nil && reg(c.loop.connections, c.fd) != c
 //@   ensures !old(c.opened) ==> err != nil && n == 0
+//@   ensures old(c.opened) && hardfail[c.fd] && !old(hardfail[c.fd]) ==> !c.opened && nclose[c] == 1 && cerr[c]
+//@   ensures old(shutreq) ==> shutreq
 //@   loop 1:
-//@     invariant c == c$0 && c.loop == old(c.loop) && c.fd == old(c.fd) && elwf(c.loop) && c.opened && CI(c) && ocnt(c) == 0 && c.cons == old(c.cons) &&
+//@     invariant (old(shutreq) ==> shutreq) && (hardfail[c.fd] <==> old(hardfail[c.fd])) &&
+//@          c == c$0 && c.loop == old(c.loop) && c.fd == old(c.fd) && elwf(c.loop) && c.opened && CI(c) && ocnt(c) == 0 && c.cons == old(c.cons) &&
 //@          n == len(data$0) && isET == isET(c.loop) && bufsepw(c, data) && arr(data) == arr(data$0) && len(data) <= len(data$0) &&
 //@          off(data) == off(data$0) + (len(data$0) - len(data)) && acc(c) == old(acc(c)) + (len(data$0) - len(data)) &&
 //@          (forall i :: 0 <= i && i < old(acc(c)) ==> aat(c, i) == old(aat(c, i))) &&
 //@          (forall j :: 0 <= j && j < len(data$0) - len(data) ==> aat(c, old(acc(c)) + j) == old(data$0[j]))
-//@     modifies spos[c.fd], sdata[c.fd]
+//@     modifies spos[c.fd], sdata[c.fd], hardfail[c.fd]
 //
 // conn.open: sends the OnOpen reply. Stream connections: the reply is appended to the accepted stream (directly to the
 // kernel, the rest behind what is pending); a write failure other than EAGAIN is returned and nothing else changes.
@@ -493,6 +507,8 @@ package gnet
 //@   ensures c.opened ==> old(c.opened) && CI(c) && (err == nil ==> len(c.buffer) == 0)
 //@   ensures !c.opened ==> CZ(c)
 //@   ensures !old(c.opened) ==> err == nil
+//@   ensures old(shutreq) ==> shutreq
+//@   ensures err == errorx.ErrEngineShutdown ==> shutreq
 //
 // Flush: sends what ReadFrom queued; afterwards pending output is under write interest again (level-triggered mode).
 //@ func (c *conn) Flush() (err error)
@@ -534,8 +550,12 @@ package gnet
 //@   ensures c.opened ==> old(c.opened) && CI(c) && (err == nil ==> len(c.buffer) == 0)
 //@   ensures !c.opened ==> CZ(c)
 //@   ensures !old(c.opened) ==> err == nil
+//@   ensures old(c.opened) && kpos[c.fd] == old(kpos[c.fd]) && ((hardfail[c.fd] && !old(hardfail[c.fd])) || (eofseen[c.fd] && !old(eofseen[c.fd]))) ==> !c.opened && nclose[c] == 1 && cerr[c]
+//@   ensures old(shutreq) ==> shutreq
+//@   ensures err == errorx.ErrEngineShutdown ==> shutreq
 //@   loop 1:
-//@     invariant el == el$0 && c == c$0 && c.loop == el && c.fd == old(c.fd) && elwf(el) && c.opened && CI(c) && len(c.buffer) == 0 && recv >= 0
+//@     invariant el == el$0 && c == c$0 && c.loop == el && c.fd == old(c.fd) && elwf(el) && c.opened && CI(c) && len(c.buffer) == 0 && recv >= 0 && (old(shutreq) ==> shutreq) && kpos[c.fd] == old(kpos[c.fd]) + recv &&
+//@          (recv == 0 ==> (hardfail[c.fd] <==> old(hardfail[c.fd])) && (eofseen[c.fd] <==> old(eofseen[c.fd])))
 
 // ---------------------------------------------------------------------------------------------
 // C19: the control API of an Engine handle obeys its state machine. Every method starts with the same guard
